@@ -219,7 +219,8 @@ class Req:
     pass
 
 
-async def read_request(reader, timeout=30.0):
+async def read_request(reader, timeout=30.0, on_head=None):
+    """on_head: coroutine called with the request (head fields only) before the body is read - an origin that answers early"""
     raw, partial = await read_head(reader, timeout)
     if raw is None:
         return None
@@ -229,6 +230,8 @@ async def read_request(reader, timeout=30.0):
     q.method = parts[0]
     q.target = parts[1] if len(parts) > 1 else ''
     q.version = parts[2] if len(parts) > 2 else ''
+    if on_head is not None:
+        await on_head(q)
     te = [t.strip().lower() for v in q.head.get_all('Transfer-Encoding') for t in v.split(',') if t.strip()]
     cl = q.head.get_all('Content-Length')
     q.body, q.complete, q.framing, q.declared, q.chunk_sizes = b'', True, 'none', None, ()
@@ -307,6 +310,7 @@ class Origin:
         listening socket (inherited by accepted connections)"""
         self.rec, self.responder, self.name = rec, responder, name
         self.stall, self.rcvbuf = stall, rcvbuf
+        self.on_head = None       # async (req-with-head-only, oconn): called before the request body is read
         self.server = None
         self.port = None
         self.nconn = 0
@@ -343,7 +347,12 @@ class Origin:
                 pass
         try:
             while not oc.closed:
-                q = await read_request(reader)
+                if self.on_head is not None:
+                    async def _oh(qq, _oc=oc):
+                        await self.on_head(qq, _oc)
+                    q = await read_request(reader, on_head=_oh)
+                else:
+                    q = await read_request(reader)
                 if q is None:
                     break
                 q.oc = cid
